@@ -5,6 +5,7 @@ import (
 	"sync"
 
 	"github.com/cockroachdb/errors"
+	"github.com/cockroachdb/errors/errorspb"
 	"github.com/cockroachdb/redact"
 	"verifh/gen"
 	"verifh/sym"
@@ -26,7 +27,7 @@ func observe(k int, e error) string {
 		return string(redact.Sprintf("%+v", e))
 	case 3:
 		enc := wire.Encode(e)
-		return fmt.Sprint(wire.Count(enc)) + familyOf(enc)
+		return fmt.Sprint(wire.Count(enc)) + encDigest(enc)
 	case 4:
 		var t *gen.UserPlain
 		return fmt.Sprint(errors.Is(e, sentinelPool[0]), errors.Is(e, e), errors.As(e, &t))
@@ -43,6 +44,21 @@ func observe(k int, e error) string {
 		return ev.Message
 	}
 	return ""
+}
+
+// encDigest lists type and message of every node of an encoding, in order.
+func encDigest(enc *wire.Enc) string {
+	switch x := enc.Error.(type) {
+	case *errorspb.EncodedError_Leaf:
+		out := "L(" + x.Leaf.Details.ErrorTypeMark.FamilyName + ":" + x.Leaf.Message
+		for _, c := range x.Leaf.MultierrorCauses {
+			out += encDigest(c)
+		}
+		return out + ")"
+	case *errorspb.EncodedError_Wrapper:
+		return "W(" + x.Wrapper.Details.ErrorTypeMark.FamilyName + ":" + x.Wrapper.Message + encDigest(&x.Wrapper.Cause) + ")"
+	}
+	return "?"
 }
 
 // H_C18_ReadOnly: observers only read a shared error value. Under the engine
